@@ -410,3 +410,9 @@ def run(ctx):
     import ext_termfault
     ext_termfault.run(ctx)
     phase("termfault")
+
+    # serviceImpl.Add between its reservation and its commit, with the identifier generator as part of the model
+    # (AddWin.tla): colliding draws forced by re-seeding math/rand, adders parked inside Activate
+    import ext_addwin
+    ext_addwin.run(ctx, scope="C16")
+    phase("addwin")
